@@ -66,9 +66,14 @@ def right_doc(name, value, al_key, al_seq, extra):
     return ["M", items, None]
 
 
-def wrapped(spec, key, anchor):
+def wrapped(spec, key, anchor, arr=False):
     """{key: &anchor {...the document...}, key2: *anchor}: every scalar
-    anchor of the document now sits inside an anchored, aliased hash."""
+    anchor of the document now sits inside an anchored, aliased hash.
+    arr: the anchored hash is an Array element, aliased from another Array:
+    {key: [&anchor {...}], key2: [*anchor]}."""
+    if arr:
+        return ["M", [[key, ["L", [["M", spec[1], anchor]], None]],
+                      [key + "2", ["L", [["A", anchor]], None]]], None]
     return ["M", [[key, ["M", spec[1], anchor]], [key + "2", ["A", anchor]]],
             None]
 
@@ -85,6 +90,11 @@ def all_cases():
                             # 1: left wrapped, 2: right wrapped, 3: both
                             for wrap in (1, 2, 3):
                                 yield (ln, lv, lf, lx, rn, rv, rf, rx, wrap)
+                            if lx is None and rx is None:
+                                # the same with Array-element wrappers
+                                for wrap in (5, 6, 7):
+                                    yield (ln, lv, lf, lx, rn, rv, rf, rx,
+                                           wrap)
 
 
 def read_positions(doc):
@@ -92,6 +102,8 @@ def read_positions(doc):
     out = {}
     for k, v in doc.items():
         if str(k) in ("lw", "rw"):
+            if is_seq(v):                       # [&wrap {...}]
+                v = v[0] if len(v) == 1 else {}
             out.update(read_positions(v))       # the wrapping hash
         elif str(k) in ("lw2", "rw2"):
             out["@" + str(k)] = (["alias-of-wrapper", canon(v) == canon(
@@ -113,9 +125,9 @@ def check_case(case_t, policy, mix, res):
     lspec = left_doc(ln, lv, lf & 1, lf & 2, lx)
     rspec = right_doc(rn, rv, rf & 1, rf & 2, rx)
     if wrap & 1:
-        lspec = wrapped(lspec, "lw", "lwrap")
+        lspec = wrapped(lspec, "lw", "lwrap", bool(wrap & 4))
     if wrap & 2:
-        rspec = wrapped(rspec, "rw", "rwrap")
+        rspec = wrapped(rspec, "rw", "rwrap", bool(wrap & 4))
     ltext = gdocs.emit(lspec)
     rtext = gdocs.emit(rspec)
     ldoc, ok1 = gdocs.load(ltext)
